@@ -124,8 +124,10 @@ def all_specs():
             Spec("bounded-abc3", hosts_upto("abc", 3), hosts_upto("abc", 3) + ["a.a.a.a", "c.b.a.c"], forms=["bare", "full"]),
             Spec("seq-spelling", spell, spellq),
             # labels starting with a digit (not IP literals), hosts mixing punycode, Unicode and undecodable xn-- labels
-            Spec("seq-spelling-mixed", ["9a.com", "9A.COM", "b.9a.com", "1.fr", "xn--9ca.é.fr", "é.xn--9ca.fr", "xn--9ca.xn--ii.fr", "É.xn--ii.fr"],
-                 ["9a.com", "b.9a.com", "c.B.9A.com", "1.fr", "a.1.fr", "é.é.fr", "xn--9ca.xn--9ca.fr", "x.É.é.fr", "é.xn--ii.fr", "xn--9ca.xn--ii.fr", "xn--ii.fr", "é.fr"],
+            Spec("seq-spelling-mixed", ["9a.com", "9A.COM", "b.9a.com", "1.fr", "xn--9ca.é.fr", "é.xn--9ca.fr", "xn--9ca.xn--ii.fr", "É.xn--ii.fr",
+                                        "1.2.3.4.9A.com", "4.fr"],
+                 ["9a.com", "b.9a.com", "c.B.9A.com", "1.fr", "a.1.fr", "é.é.fr", "xn--9ca.xn--9ca.fr", "x.É.é.fr", "é.xn--ii.fr", "xn--9ca.xn--ii.fr", "xn--ii.fr", "é.fr",
+                  "1.2.3.4.9a.com", "x.1.2.3.4.9a.com", "1.2.3.4.fr", "4.9a.com"],
                  forms=["bare", "http", "full", "upper"]),
         ]
     }
